@@ -161,7 +161,7 @@ pub fn verif_replay_main(dispatch: fn(&str, &mut RSrc) -> bool) {
     let seed: u64 = std::env::var("VERIF_SEED").ok().and_then(|v| v.parse().ok()).unwrap_or(1);
     let nbytes: usize = std::env::var("VERIF_NBYTES").ok().and_then(|v| v.parse().ok()).unwrap_or(64);
     // VERIF_ONLY=<text>: only failed clauses whose label contains <text> count (a property id: labels of harnesses that serve several
-    // properties end in a tag like `[C04,C15]`; a panic of the real code carries `[C01]`)
+    // properties end in a tag like `[C04,C15]`; a panic of the real code always counts and is labelled `[C01]`)
     let only = std::env::var("VERIF_ONLY").unwrap_or_default();
     std::panic::set_hook(Box::new(|_| {}));
     let mut x: u64 = seed.wrapping_mul(0x9E3779B97F4A7C15) | 1;
@@ -203,7 +203,8 @@ pub fn verif_replay_main(dispatch: fn(&str, &mut RSrc) -> bool) {
             Ok(_) => None,
             Err(e) => {
                 let msg = e.downcast_ref::<String>().cloned().or_else(|| e.downcast_ref::<&str>().map(|s| s.to_string())).unwrap_or_default();
-                if msg.contains("VERIF_WITNESS_REJECTED") || !(only.is_empty() || only == "C01") { None } else { Some(format!("panic [C01]: {}", msg)) }
+                // a panic of the real code is a failing input for whichever property is being checked (the call does not return what it promises)
+                if msg.contains("VERIF_WITNESS_REJECTED") { None } else { Some(format!("panic [C01]: {}", msg)) }
             }
         };
         if let Some(v) = verdict {
